@@ -18,7 +18,7 @@ theorem labels_sound (p : Prog) (l : List ℕ) (h : computeLabels p = some l) :
   have hok := labelsOK_of_compute p l h
   unfold labelsOK at hok
   simp only [Bool.and_eq_true, List.all_eq_true, beq_iff_eq] at hok
-  exact fun e he => hok.1 e he
+  exact fun e he => hok.1.1 e he
 
 variable (p : Prog) (l : List ℕ) (α : ℕ → List Rat)
 
